@@ -602,9 +602,10 @@ where
     T: Elem + TryIntoCtx<scroll::Endian, Error = scroll::Error> + SizeWith<scroll::Endian> + 'static,
 {
     let pos = st.model.len();
-    let n = match rng.below(6) {
+    let n = match rng.below(if cfg!(miri) { 6 } else { 14 }) {
         0 => 0,
         1 => 1,
+        13 => *rng.pick(&[33usize, 65, 257, 513]),
         _ => rng.range(2, 9) as usize,
     };
     let w = MemoryArrayWriter::<T>::alloc_array(&mut st.buf, n).map_err(|e| format!("alloc_array failed: {e}"))?;
@@ -639,7 +640,7 @@ where
     T: Elem + TryIntoCtx<scroll::Endian, Error = scroll::Error> + SizeWith<scroll::Endian> + 'static,
 {
     let pos = st.model.len();
-    let n = rng.below(7) as usize;
+    let n = if cfg!(miri) { rng.below(7) as usize } else { match rng.below(12) { 0 => *rng.pick(&[16usize, 33, 64, 65, 257, 513]), _ => rng.below(7) as usize } };
     let mut vals = Vec::new();
     let mut bytes = Vec::new();
     for _ in 0..n {
@@ -661,7 +662,8 @@ where
     T: Elem + Copy + TryIntoCtx<scroll::Endian, Error = scroll::Error> + SizeWith<scroll::Endian> + 'static,
 {
     let pos = st.model.len();
-    let n = rng.below(7) as usize;
+    // mostly small arrays, now and then one that spans several internal blocks / pages
+    let n = if cfg!(miri) { rng.below(7) as usize } else { match rng.below(10) { 0 => *rng.pick(&[16usize, 17, 32, 33, 64, 65, 257, 513, 1000, 4097]), _ => rng.below(7) as usize } };
     let mut vals = Vec::new();
     let mut bytes = Vec::new();
     for _ in 0..n {
